@@ -63,12 +63,12 @@ func init() {
 
 func c17count(tier string) int {
 	if tier == "thorough" {
-		return 400
+		return 407
 	}
-	return 50
+	return 55
 }
 
-var c17kinds = []string{"prog", "ebg", "prog", "bnd", "prog", "catch", "prog", "dobj", "prog", "loc"}
+var c17kinds = []string{"prog", "ebg", "prog", "bnd", "prog", "catch", "prog", "dobj", "prog", "loc", "cond"}
 
 func c17raceBuild() bool {
 	if bi, ok := debug.ReadBuildInfo(); ok {
@@ -487,6 +487,8 @@ func c17runCase(out *rec.Out, idx int, rng *rec.Rng, tier string, stats map[stri
 		c17events(out, rng, stats, cfg)
 	case "loc":
 		c17loc(out, rng, stats, cfg)
+	case "cond":
+		c17cond(out, rng, stats, cfg)
 	}
 }
 
@@ -1174,4 +1176,155 @@ func c17loc(out *rec.Out, rng *rec.Rng, stats map[string]int, cfg c17cfg) {
 	c17dump(out, in)
 	s.finish(out, stats, complete)
 	in.Stop(2 * time.Second)
+}
+
+// ---------------------------------------------------------------- cond: conditions evaluated by many tokens at once
+
+// c17cond: several instances of one definitions, each with a parallel fork into n branches; branch i is
+// task Ti (writes vi) -> exclusive split on `vi == 1` -> Yi | default Ni -> merge; join; end. ALL tasks Ti of ALL
+// instances are answered at one instant from their own goroutines, so n x (instances) tokens evaluate formal condition
+// expressions concurrently (whatever the expression layer shares between evaluations is touched by all of them).
+// Each token must take the branch its OWN value selects.
+func c17cond(out *rec.Out, rng *rec.Rng, stats map[string]int, cfg c17cfg) {
+	g := eng.NewGraph()
+	n := 2 + rng.Intn(3)
+	br := make([]eng.Frag, n)
+	for i := range br {
+		v := fmt.Sprintf("v%d", i)
+		t := g.Task("task", fmt.Sprintf("T%d", i), "", v)
+		sp := g.Split("exclusiveGateway", "exclusiveGateway", "", []eng.Frag{g.Task("task", fmt.Sprintf("Y%d", i), ""), g.Task("task", fmt.Sprintf("N%d", i), "")},
+			[]*eng.Cond{{Op: "eq", Var: v, K: 1}, nil}, 1)
+		br[i] = g.Seq(t, sp)
+	}
+	g.Wrap(g.Split("parallelGateway", "parallelGateway", "", br, nil, -1))
+	ninst := 2 + rng.Intn(3)
+	type inst struct {
+		in    *eng.Inst
+		s     *c17session
+		wrote map[int]int
+	}
+	var insts []*inst
+	for k := 0; k < ninst; k++ {
+		vars := map[string]any{}
+		for i := 0; i < n; i++ {
+			vars[fmt.Sprintf("v%d", i)] = 0
+		}
+		in, defs, err := eng.Start(g.XML(), vars)
+		if err != nil {
+			out.Line("harness-error %v", err)
+			return
+		}
+		if k == 0 {
+			for _, l := range eng.ProgLines(&(*defs.Processes())[0], g.CondRPN) {
+				out.Line("prog %s", l)
+			}
+		}
+		c := cfg
+		if k > 0 {
+			c.waiters = 0
+		}
+		insts = append(insts, &inst{in: in, s: c17newSession(in, c, []string{"v0", "v1"}), wrote: map[int]int{}})
+	}
+	for _, x := range insts {
+		if !x.in.Quiesce(6 * time.Second) {
+			x.in.Note("c17 noquiesce")
+		}
+	}
+	// one instant: every Ti of every instance
+	gate := make(chan struct{})
+	var wg sync.WaitGroup
+	bg := insts[0].s.burst(rng)
+	for k, x := range insts {
+		for _, q := range x.in.Pending() {
+			var i int
+			fmt.Sscanf(q.Node, "T%d", &i)
+			w := (k + i + rng.Intn(2)) % 2
+			x.wrote[i] = w
+			q.Done = true
+			x.in.Note("c17 op answer %s %d inst=%d wrote=%d", q.Node, q.Occ, k, w)
+			wg.Add(1)
+			q := q
+			res := map[string]any{fmt.Sprintf("v%d", i): w}
+			s := x.s
+			go func() {
+				defer wg.Done()
+				<-gate
+				if !eng.DoWithDeadline(q.Trace, 1500*time.Millisecond, bpmn.DoWithResults(res)) {
+					s.cnt.blockedDo.Add(1)
+					s.in.Note("c17 blocked do %s %d", q.Node, q.Occ)
+				}
+			}()
+			insts[0].s.cnt.answers.Add(1)
+			insts[0].s.cnt.concAnswers.Add(1)
+		}
+	}
+	insts[0].s.cnt.batches++
+	close(gate)
+	c17waitWG(&wg, 6*time.Second)
+	c17waitWG(bg, 5*time.Second)
+	for k, x := range insts {
+		if !x.in.Quiesce(6 * time.Second) {
+			x.in.Note("c17 noquiesce")
+		}
+		took := map[int]string{}
+		for _, q := range x.in.Pending() {
+			var i int
+			var yn string
+			if _, err := fmt.Sscanf(q.Node[1:], "%d", &i); err == nil {
+				yn = q.Node[:1]
+				if took[i] == "" {
+					took[i] = yn
+				} else {
+					took[i] = "both"
+				}
+			}
+		}
+		for i := 0; i < n; i++ {
+			t := took[i]
+			if t == "" {
+				t = "none"
+			}
+			x.in.Note("c17 condroute inst=%d branch=%d wrote=%d took=%s", k, i, x.wrote[i], t)
+		}
+	}
+	// second instant: every Yi / Ni of every instance (tokens run into the join together)
+	var wg2 sync.WaitGroup
+	gate2 := make(chan struct{})
+	for _, x := range insts {
+		for _, q := range x.in.Pending() {
+			q.Done = true
+			x.in.Note("c17 op answer %s %d", q.Node, q.Occ)
+			wg2.Add(1)
+			q := q
+			go func() {
+				defer wg2.Done()
+				<-gate2
+				eng.DoWithDeadline(q.Trace, 1500*time.Millisecond)
+			}()
+		}
+	}
+	close(gate2)
+	c17waitWG(&wg2, 6*time.Second)
+	complete := true
+	for _, x := range insts {
+		if !x.in.WaitComplete(1500 * time.Millisecond) {
+			complete = false
+		}
+		x.in.Quiesce(2 * time.Second)
+	}
+	for _, x := range insts {
+		c17dump(out, x.in)
+	}
+	if !complete {
+		out.Line("c17 condincomplete")
+	}
+	insts[0].s.finish(out, stats, complete)
+	for k, x := range insts {
+		if k > 0 {
+			x.s.waitCancel()
+		}
+		x.in.Stop(2 * time.Second)
+	}
+	stats["cond_instances"] += ninst
+	stats["cond_tokens_evaluating_together"] += ninst * n
 }
